@@ -303,6 +303,16 @@ def run(ctx, model_ok):
     # malformed literals
     bodies = [items for n in range(0, 3) for items in itertools.product(ALPHABET, repeat=n)]
     mal = malformed_cases(rng, bodies, 60 if thorough else 15)
+    # every character that is not a hexadecimal digit, in either position of `\xHH`, in plain and interpolated literals
+    for hc in [chr(i) for i in range(32, 127)] + ["\n", "\t", "é"]:
+        if hc in "0123456789abcdefABCDEF\"":
+            continue
+        for in_interp in (False, True):
+            for esc, off in (("\\x" + hc + "9", 2), ("\\x9" + hc, 3)):
+                head = 'print("ran")\ns := ' + ('$"' if in_interp else '"') + "é "
+                text = head + esc + ' z"\nprint(s)\n'
+                o = len(head) + off
+                mal.append(("hexdigit" + ("/interp" if in_interp else "/plain"), text, L.pos_of(text, o), text[o]))
     msrcs = [m[1] for m in mal]
     mimpl, mdis = tie.run(ctx, msrcs, "malformed", model_ok, project=tie.proj_full)
     mbad = []
@@ -335,9 +345,13 @@ def run(ctx, model_ok):
         m = DIAG.match(cr["stderr"])
         if cr["status"] == "103" and cr["stdout"] == "" and m and (int(m.group(1)), int(m.group(2))) == (l, c):
             continue
-        seen[kind] = seen.get(kind, 0) + 1
+        # K7: a line break as the offending character is reported at (following line, column 0)
+        k7 = bool(c - 1 == len(text.split("\n")[l - 1]) and cr["status"] == "103" and cr["stdout"] == "" and m and
+                  (int(m.group(1)), int(m.group(2))) == (l + 1, 0))
+        if not k7:
+            seen[kind] = seen.get(kind, 0) + 1
         ctx.violation(f"C15 (malformed literal, {kind}): {why}", f"# C15 expect error at {l}:{c}\n" + text,
-                      {"cli": cr, "expected_position": f"{l}:{c}"})
+                      {"cli": cr, "expected_position": f"{l}:{c}", "line_break_offender_reported_at_next_line_column_0": k7})
     okset = {b[1] for b in bad} | {b[1] for b in mbad}
     tie.report_disagreements(ctx, [d for d in dis + mdis if d[0] not in okset], "strings")
     for stream in ("plain", "interp2", "interp-long", "interp-nonstring"):
